@@ -291,6 +291,22 @@ class ExprCanon(ast.NodeTransformer):
         self.generic_visit(node)
         return node
 
+    def visit_JoinedStr(self, node):
+        self.generic_visit(node)
+        # f"{x}{'Fields'}" -> f"{x}Fields": a constant string part (e.g. a folded named constant) is literal text
+        vals = []
+        for v in node.values:
+            if isinstance(v, ast.FormattedValue) and v.conversion == -1 and v.format_spec is None and isinstance(v.value, ast.Constant) and isinstance(v.value.value, str):
+                v = ast.Constant(value=v.value.value)
+            if isinstance(v, ast.Constant) and isinstance(v.value, str) and vals and isinstance(vals[-1], ast.Constant) and isinstance(vals[-1].value, str):
+                vals[-1] = ast.Constant(value=vals[-1].value + v.value)
+            else:
+                vals.append(v)
+        node.values = vals
+        if len(vals) == 1 and isinstance(vals[0], ast.Constant):
+            return ast.copy_location(vals[0], node)
+        return node
+
     def visit_FormattedValue(self, node):
         self.generic_visit(node)
         # f"{str(x)}" / f"{x!s}" -> f"{x}"   (format(x, "") is str(x) for everything that does not override __format__)
